@@ -5,6 +5,7 @@
 package main
 
 import (
+	"bytes"
 	"encoding/json"
 	"fmt"
 	"math/big"
@@ -38,6 +39,7 @@ const (
 	addrC1 = "0x00000000000000000000000000000000c0de0001"
 	addrC2 = "0x00000000000000000000000000000000c0de0002"
 	addrC3 = "0x00000000000000000000000000000000c0de0003" // uses opcodes introduced by proposal 022
+	addrC6 = "0x00000000000000000000000000000000c0de0006" // calls the precompiled contracts and records gas
 	addrC5 = "0x00000000000000000000000000000000c0de0005" // probe: observes other accounts without calling them
 	addrC4 = "0x00000000000000000000000000000000c0de0004" // uses an opcode introduced by proposal 014
 	minerX = "0x00000000000000000000000000000000000000000000000000000000000aa001"
@@ -127,6 +129,63 @@ func probeCode() []byte {
 	return p.Return(32, 32).Bytes()
 }
 
+// precompileCode calls the precompiled contracts with small fixed inputs (MODEXP with exponent
+// 0, 1, a two-byte and a 32-byte exponent; SHA256; RIPEMD160; IDENTITY; ECRECOVER on garbage)
+// and records, for every call, the success flag, the first returned word and the GAS consumed
+// around it; the digest of all of it is stored and the raw values are logged.  Gas charged by
+// a precompile is part of the receipt, so it must not depend on what the process did before.
+func precompileCode() []byte {
+	p := asm.New()
+	word := func(b []byte, i int) []byte {
+		w := make([]byte, 32)
+		if i*32 < len(b) {
+			copy(w, b[i*32:])
+		}
+		return w
+	}
+	modexp := func(base, exp, mod []byte) []byte {
+		in := append(append(append([]byte{}, word32(len(base))...), word32(len(exp))...), word32(len(mod))...)
+		return append(append(append(in, base...), exp...), mod...)
+	}
+	calls := []struct {
+		addr byte
+		in   []byte
+	}{
+		{5, modexp(bytes.Repeat([]byte{0xab}, 96), []byte{0}, bytes.Repeat([]byte{0xcd}, 96))},
+		{5, modexp(bytes.Repeat([]byte{0xab}, 96), []byte{1}, bytes.Repeat([]byte{0xcd}, 96))},
+		{5, modexp(bytes.Repeat([]byte{0xab}, 64), []byte{0x12, 0x34}, bytes.Repeat([]byte{0xcd}, 64))},
+		{5, modexp(bytes.Repeat([]byte{0xab}, 96), nil, bytes.Repeat([]byte{0xcd}, 96))},
+		{5, modexp([]byte{3}, []byte{0}, []byte{5})},
+		{5, modexp([]byte{3}, []byte{0x12, 0x34}, []byte{5})},
+		{5, modexp([]byte{3}, []byte{1}, []byte{5})},
+		{5, modexp([]byte{3}, bytes.Repeat([]byte{0xff}, 32), []byte{1, 0, 1})},
+		{5, nil},
+		{5, modexp([]byte{3}, []byte{0x12, 0x34}, []byte{5})},
+		{2, []byte("abc")},
+		{3, []byte("abc")},
+		{4, []byte("identity-input")},
+		{1, bytes.Repeat([]byte{7}, 128)},
+	}
+	out := 0x400
+	for i, c := range calls {
+		for w := 0; w*32 < len(c.in); w++ {
+			p.PushN(32, word(c.in, w)).Push(w * 32).Op(vm.MSTORE)
+		}
+		p.Push(0).Push(0x300).Op(vm.MSTORE) // clear the return word
+		p.Op(vm.GAS)
+		p.Push(32).Push(0x300).Push(len(c.in)).Push(0).Push(int(c.addr)).Push(200000).Op(vm.STATICCALL)
+		p.Push(out + i*96).Op(vm.MSTORE) // success flag
+		p.Op(vm.GAS).Op(vm.SWAP1).Op(vm.SUB).Push(out + i*96 + 32).Op(vm.MSTORE)
+		p.Push(0x300).Op(vm.MLOAD).Push(out + i*96 + 64).Op(vm.MSTORE)
+	}
+	n := len(calls) * 96
+	p.Push(n).Push(out).Op(vm.SHA3).Push(0x20).Op(vm.SSTORE)
+	p.Push(n).Push(out).Op(vm.LOG0)
+	return p.Return(out, 32).Bytes()
+}
+
+func word32(n int) []byte { return common.BigToHash(big.NewInt(int64(n))).Bytes() }
+
 func setup() {
 	if err := node.Boot(node.ForksAllOn, true); err != nil {
 		panic(err)
@@ -145,6 +204,8 @@ func setup() {
 	st.SetNonce(common.HexToAddress(addrC3), 1)
 	st.SetCode(common.HexToAddress(addrC4), stakeOpsCode())
 	st.SetNonce(common.HexToAddress(addrC4), 1)
+	st.SetCode(common.HexToAddress(addrC6), precompileCode())
+	st.SetNonce(common.HexToAddress(addrC6), 1)
 	st.SetCode(common.HexToAddress(addrC5), probeCode())
 	st.SetNonce(common.HexToAddress(addrC5), 1)
 	st.SetData(common.HexToAddress(addrC5), common.Hash{}.Bytes(), word(3))
@@ -249,6 +310,8 @@ func buildTx(s TxSpec, i int, st *account.AccountDB) *types.Transaction {
 		return node.ContractTx(types.TransactionTypeContract, src, addrC3, nil, 3000000, "0", 0, stamp)
 	case "callstakeops":
 		return node.ContractTx(types.TransactionTypeContract, src, addrC4, nil, 3000000, "0", 0, stamp)
+	case "callprecompiles":
+		return node.ContractTx(types.TransactionTypeContract, src, addrC6, nil, 30000000, "0", 0, stamp)
 	case "callprobe":
 		return node.ContractTx(types.TransactionTypeContract, src, addrC5, nil, 3000000, "0", 0, stamp)
 	case "calloog":
@@ -562,7 +625,7 @@ func inputs(thorough bool) []Input {
 	// lists of <= L transactions over the mixed alphabet
 	alpha := []TxSpec{
 		{Kind: "create", Src: "A"}, {Kind: "call", Src: "A"}, {Kind: "callvalue", Src: "B"}, {Kind: "callrevert", Src: "A"},
-		{Kind: "calloog", Src: "B"}, {Kind: "ethcall", Src: "B"}, {Kind: "ethcall", Src: "P"}, {Kind: "call", Src: "P"}, {Kind: "callforkops", Src: "B"}, {Kind: "callstakeops", Src: "B"}, {Kind: "callprobe", Src: "B"}, {Kind: "apply", Src: "B"}, {Kind: "applypoor", Src: "A"},
+		{Kind: "calloog", Src: "B"}, {Kind: "ethcall", Src: "B"}, {Kind: "ethcall", Src: "P"}, {Kind: "call", Src: "P"}, {Kind: "callforkops", Src: "B"}, {Kind: "callstakeops", Src: "B"}, {Kind: "callprobe", Src: "B"}, {Kind: "callprecompiles", Src: "B"}, {Kind: "apply", Src: "B"}, {Kind: "applypoor", Src: "A"},
 		{Kind: "add", Src: "B"}, {Kind: "refund", Src: "B"}, {Kind: "change", Src: "B"},
 		{Kind: "transfer", Src: "B", Targets: [][2]string{{"A", "5"}}},
 		{Kind: "transfer", Src: "A", Targets: [][2]string{{"B", "6"}, {"A", "7"}}},
@@ -803,6 +866,8 @@ func run(c *fw.Ctx) {
 		{{Kind: "callprobe", Src: "A"}, {Kind: "call", Src: "B"}},
 		{{Kind: "call", Src: "A"}, {Kind: "callprobe", Src: "B"}},
 		{{Kind: "create", Src: "A"}, {Kind: "callprobe", Src: "B"}},
+		{{Kind: "callprecompiles", Src: "B"}},
+		{{Kind: "callprecompiles", Src: "A"}, {Kind: "callprecompiles", Src: "B"}},
 	} {
 		sample = append(sample, Input{Name: "list", Txs: txs})
 	}
